@@ -1,5 +1,7 @@
 mod ops_graph;
+mod ops_names;
 mod ops_types;
+mod ops_valid;
 mod rty;
 mod out;
 mod rng;
@@ -16,6 +18,9 @@ pub fn exec(op: &str, input: &Value) -> (Value, Value) {
         "parseTS" => ops_types::exec_parse_ts(input),
         "site" => ops_types::exec_site(input),
         "prefix" => ops_types::exec_prefix(input),
+        "name" => ops_names::exec_name(input),
+        "fieldAttrs" => ops_names::exec_field_attrs(input),
+        "validator" => ops_valid::exec_validator(input),
         _ => (input.clone(), json!({"error": format!("unknown op {}", op)})),
     }
 }
@@ -60,6 +65,9 @@ fn main() {
         }
         "graph" => ops_graph::run(&mut out, &tier, &mut rng),
         "types" => ops_types::run(&mut out, &tier, &mut rng),
+        "fields" => ops_names::run_fields(&mut out, &tier, &mut rng),
+        "params" => ops_names::run_params(&mut out, &tier, &mut rng),
+        "valid" => ops_valid::run(&mut out, &tier, &mut rng),
         _ => {
             eprintln!("unknown group {}", group);
             std::process::exit(2);
